@@ -41,7 +41,9 @@ class Worktree:
 
 def demo(wt, demofile):
     shutil.copy(demofile, wt + '/zz_seeded_demo_test.go')
-    rc, out = sh("go test -vet=off -count=1 -run 'Test(Demo|Mut|M[0-9])' . 2>&1 | tail -1", cwd=wt)
+    names = re.findall(r'^func (Test\w+)\(', open(demofile).read(), re.M)
+    pat = '^(' + '|'.join(names) + ')$' if names else 'Test(Demo|Mut|M[0-9])'
+    rc, out = sh("go test -vet=off -count=1 -run '%s' . 2>&1 | tail -1" % pat, cwd=wt)
     os.remove(wt + '/zz_seeded_demo_test.go')
     return out.strip()
 
@@ -96,6 +98,9 @@ def add(mutdir, sid, prop, checks):
         rc, out = sh('go build ./...', cwd=wt)
         meta['build'] = 'ok' if rc == 0 else out[-300:]
         rc, out = sh('go test -vet=off -count=1 ./... 2>&1 | tail -3', cwd=wt)
+        if 'ok  \tgithub.com/yuin/gopher-lua\t' not in out:
+            # the suite's 40 MB heap watchdog and a wall-clock os.date test are flaky when the machine is loaded: once more
+            rc, out = sh('go test -vet=off -count=1 ./... 2>&1 | tail -3', cwd=wt)
         meta['repository_tests_with_patch'] = [l for l in out.splitlines() if 'gopher-lua\t' in l or l.startswith('FAIL') or l.startswith('ok')][-1:] or [out[-200:]]
         meta['demo_with_patch'] = demo(wt, mutdir + '/demo_test.go')
         rc, diff = sh('git diff', cwd=wt)
